@@ -51,7 +51,7 @@ def outcomeText (s : St) (dropped : Bool) : String :=
   let ev := if s.chans.isEmpty then "-" else ".".intercalate (s.chans.map (fun c => toString c.events))
   let calls :=
     if dropped then "-" else
-    let main := String.ofList [callChar (call s .sendData), callChar (call s .createOffer), callChar (call s .waitForConnected), callChar (call s .pcRecv)]
+    let main := String.ofList [callChar (call s .sendData), callChar (call s .createOffer), callChar (call s .waitForConnected), callChar (call s .pcRecv), callChar (call s .createDataChannel)]
     let recv := if s.chans.isEmpty then "-" else String.ofList (s.chans.map (fun c => if c.senderDropped then 'o' else 'p'))
     s!"{main}/{recv}/h{b01 s.held}/b{s.blocked}"
   s!"{peerText s.peer},{sigText s.sig},{reasonText s.reason},{ev},{calls}"
@@ -96,6 +96,12 @@ def eventActs : String → Option (List (List Act))
   -- ICE `Failed`: forced on the subject's ICE transport, or written by its consent keepalive after the peer
   -- went silent (the harness' silencing can leak a close_notify, see `peerVanish`)
   | "iceFail" => some [[.iceFail]]
+  -- a lower-layer end, then the application's close()
+  | "iceFailThenClose" => some [[.iceFail, .callClose .localClose]]
+  | "peerAbortThenClose" => some [[.peerAbort, .callClose .localClose]]
+  | "peerCloseNotifyThenClose" => some [[.peerCloseNotify, .callClose .localClose]]
+  -- silent peer: ICE Disconnected, grace expiry, then ICE gives up (or the silencing leaked a close_notify)
+  | "peerVanishThenIceFail" => some [[.iceDisconnect, .iceFail], [.peerCloseNotify, .iceFail]]
   | "peerVanishIceFail" => some [[.iceFail], [.peerCloseNotify]]
   -- the peer's certificate does not match the announced fingerprint: nothing happens now, the handshake
   -- (racing progress) ends in failure instead of `Connected`
